@@ -83,6 +83,157 @@ RAW_FIXED = [b"", b"i-0e", b"i007e", b"i-e", b"ie", b"i e", b"i 5 e", b"i+5e", b
 MUT_BYTES = b"-0:ei ld_+1\x00"
 
 
+# ---- EDN / JSON generators --------------------------------------------------------------
+ESC_ALPHA = ['"', "\\", "\n", "\t", "\x00", "\x7f", "\xe9", "\u4e2d", "a", "f", "0", "u", "\r", "\x07", "n", "x"]
+E_INTS = [0, 1, -1, 7, -42, 10 ** 30, -2 ** 63]
+E_FLOATS = ["0.0", "-0.0", "1.5", "-2.25", "100.0", "0.1", "1234.5678", "-0.001"]
+E_EXP_FLOATS = ["1e+23", "1.5e+300", "2.5e-05", "1e-07", "-1e+16", "1.2e+20"]       # F-19a triggers
+E_EXP_FLOATS_LISP = ["1e+23", "-1e+16", "5e+20"]                                     # F-19c triggers (integral significand)
+E_NAMES = ["a", "kw", "a-b", "x?", "*v*", "+", "-", "->", "b1", "<=", "a_b", "-a", "nil?", "é", "привет", "a.b", ".x"]
+E_NS = [None, None, "n", "a.b", "my-ns"]
+
+
+def _names_for(kind, rng):
+    nm = rng.choice(E_NAMES)
+    ns = rng.choice(E_NS)
+    if kind == "sym" and ns is not None and nm.startswith("."):
+        ns = None
+    return [ns, nm]
+
+
+def pykey(j):
+    """Python-equality class of a value (1 == 1.0 == True collide as map keys / set members)."""
+    if j is None:
+        return ("nil",)
+    if "b" in j:
+        return ("num", float(j["b"]))
+    if "i" in j:
+        return ("num", float(j["i"])) if abs(j["i"]) < 2 ** 53 else ("int", j["i"])
+    if "f" in j:
+        return ("num", float(j["f"]))
+    return ("other", repr(j))
+
+
+def gen_edn_leaf(rng, rd, findings=True):
+    r = rng.random()
+    if r < 0.08:
+        return None
+    if r < 0.16:
+        return {"b": rng.random() < 0.5}
+    if r < 0.32:
+        return {"i": rng.choice(E_INTS)}
+    if r < 0.44:
+        if findings and rng.random() < 0.25:
+            return {"f": rng.choice(E_EXP_FLOATS if rd == 0 else E_EXP_FLOATS_LISP)}
+        return {"f": rng.choice(E_FLOATS)}
+    if r < 0.62:
+        return {"s": "".join(rng.choice(ESC_ALPHA) for _ in range(rng.randint(0, 3)))}
+    if r < 0.82:
+        nm = _names_for("kw", rng)
+        if not findings and "." in nm[1]:
+            nm[1] = "k"
+        return {"kw": nm}
+    nm = _names_for("sym", rng)
+    if nm[0] is None and nm[1] in ("nil", "true", "false"):
+        nm[1] = "s"
+    return {"sym": nm}
+
+
+def gen_edn(rng, rd, depth, findings=True):
+    if depth <= 0 or rng.random() < 0.45:
+        return gen_edn_leaf(rng, rd, findings)
+    r = rng.random()
+    n = rng.randint(0, 3)
+    if r < 0.35:
+        return {"v": [gen_edn(rng, rd, depth - 1, findings) for _ in range(n)]}
+    if r < 0.55:
+        return {"l": [gen_edn(rng, rd, depth - 1, findings) for _ in range(n)]}
+    if r < 0.75:
+        out, seen = [], set()
+        for _ in range(n):
+            e = gen_edn(rng, rd, depth - 1, findings)
+            if pykey(e) not in seen:
+                seen.add(pykey(e))
+                out.append(e)
+        return {"set": out}
+    out, seen = [], set()
+    for _ in range(n):
+        k = gen_edn(rng, rd, depth - 1, findings)
+        if pykey(k) not in seen:
+            seen.add(pykey(k))
+            out.append([k, gen_edn(rng, rd, depth - 1, findings)])
+    return {"m": out}
+
+
+EDN_TEXTS = ["1e+23", "1e-05", "1.0", "-0.0", ":a.b", ":a.c/b", ":a/b", "a.b", "nil", "-", "-a", "-1", "/", ":/", ":1",
+             ":1a", "[1 []]", "()", "(1 2)", "#{1}", "{:a 1}", "{}", "#{}", '""', ":b/a", "a.b/x", "true", ":nil",
+             ":a:b", "a#", ":#a", "+1", "+", ".5", ":-1", ":a b", "----a", "--->", "12-a", "a/.b", "a..b/c", "[1 2",
+             "{1}", "ns//", "//", "--5", "1-2", " 5", ",,[,1,]", '{:a [1 2] "k" #{nil}}', '"a\\nb"', '"\\q"', '"abc',
+             "[1 2)", ")", "a/b/c", ":a/b/c", "x.y.z/w", "false", ":true", "[nil true false]", "-12", "-1.5", "3.25",
+             "(a b (c))", "[[[]]]", "#{#{}}", "{{} {}}", '"é中"', "é", "[a,b]", "1.5.2", "..", "a/", "/a", ":"]
+
+
+def gen_json_key(rng):
+    r = rng.random()
+    nm = rng.choice(["a", "b", "k1", "x-y", "é", "", "a b"])
+    if r < 0.4:
+        return {"s": nm}
+    if r < 0.8:
+        return {"kw": [rng.choice([None, "n", "m"]), nm or "k"]}
+    return {"sym": [rng.choice([None, "n"]), nm or "k"]}
+
+
+def json_key_name(k):
+    return k["s"] if "s" in k else (k["kw"][1] if "kw" in k else k["sym"][1])
+
+
+def gen_json(rng, depth, distinct=True):
+    if depth <= 0 or rng.random() < 0.45:
+        r = rng.random()
+        if r < 0.1:
+            return None
+        if r < 0.2:
+            return {"b": rng.random() < 0.5}
+        if r < 0.35:
+            return {"i": rng.choice(E_INTS)}
+        if r < 0.45:
+            return {"f": rng.choice(E_FLOATS + E_EXP_FLOATS)}
+        if r < 0.7:
+            return {"s": "".join(rng.choice(ESC_ALPHA) for _ in range(rng.randint(0, 3)))}
+        if r < 0.85:
+            return {"kw": [rng.choice(E_NS), rng.choice(E_NAMES)]}
+        return {"sym": [rng.choice(E_NS), rng.choice(E_NAMES)]}
+    r = rng.random()
+    n = rng.randint(0, 3)
+    if r < 0.3:
+        return {"v": [gen_json(rng, depth - 1, distinct) for _ in range(n)]}
+    if r < 0.45:
+        return {"l": [gen_json(rng, depth - 1, distinct) for _ in range(n)]}
+    if r < 0.55:
+        return {"set": [gen_json(rng, depth - 1, distinct) for _ in range(min(n, 1))]}
+    out, names, keys = [], set(), set()
+    for _ in range(n):
+        k = gen_json_key(rng)
+        if _jd(k) in keys or (distinct and json_key_name(k) in names):
+            continue
+        keys.add(_jd(k))
+        names.add(json_key_name(k))
+        out.append([k, gen_json(rng, depth - 1, distinct)])
+    return {"m": out}
+
+
+def _jd(x):
+    import json
+    return json.dumps(x, sort_keys=True)
+
+
+def strings_upto(alpha, n):
+    import itertools
+    for k in range(n + 1):
+        for t in itertools.product(alpha, repeat=k):
+            yield "".join(t)
+
+
 def gen_stream(rng):
     return [gen_bval(rng, 2) for _ in range(rng.randint(1, 4))]
 
@@ -112,6 +263,44 @@ def cases(tier, rng):
             elif data:
                 del data[min(pos, len(data) - 1)]
         yield {"k": "braw", "data": list(data)}
+    # ---- EDN: the findings' own witnesses first
+    for rd in (0, 1):
+        for tok in (E_EXP_FLOATS if rd == 0 else E_EXP_FLOATS_LISP):
+            yield {"k": "edn", "rd": rd, "v": {"f": tok}}
+        yield {"k": "edn", "rd": rd, "v": {"kw": [None, "a.b"]}}
+        yield {"k": "edn", "rd": rd, "v": {"v": [{"kw": ["n", "x.y"]}, {"f": "1e+23"}]}}
+    # strings over escape-relevant characters: exhaustive to length 2 (quick) / 3 (thorough)
+    alpha = ESC_ALPHA[:12]
+    strs = list(strings_upto(ESC_ALPHA, 2)) if tier == "quick" else list(strings_upto(alpha, 3)) + list(strings_upto(ESC_ALPHA, 2))
+    if tier == "quick":
+        strs += ["".join(rng.choice(ESC_ALPHA) for _ in range(3)) for _ in range(250)]
+    for st in strs:
+        yield {"k": "edn", "rd": 0, "v": {"s": st}}
+    for st in (strs if tier != "quick" else strs[::3]):
+        yield {"k": "edn", "rd": 1, "v": {"s": st}}
+    for st in strs[::4]:
+        yield {"k": "json", "v": {"s": st}}
+    # scalars and names, both readers
+    for rd in (0, 1):
+        for i in E_INTS:
+            yield {"k": "edn", "rd": rd, "v": {"i": i}}
+        for f in E_FLOATS:
+            yield {"k": "edn", "rd": rd, "v": {"f": f}}
+        for v in (None, {"b": True}, {"b": False}):
+            yield {"k": "edn", "rd": rd, "v": v}
+        for nm in E_NAMES:
+            for ns in (None, "n", "a.b"):
+                yield {"k": "edn", "rd": rd, "v": {"kw": [ns, nm]}}
+                if not (ns is not None and nm.startswith(".")):
+                    yield {"k": "edn", "rd": rd, "v": {"sym": [ns, nm]}}
+    for _ in range(500 if tier == "quick" else 8000):
+        rd = rng.randint(0, 1)
+        yield {"k": "edn", "rd": rd, "v": gen_edn(rng, rd, 3, findings=rng.random() < 0.3)}
+    for rd in (0, 1):
+        for t in EDN_TEXTS:
+            yield {"k": "ednt", "rd": rd, "text": t}
+    for _ in range(300 if tier == "quick" else 4000):
+        yield {"k": "json", "v": gen_json(rng, 3, distinct=rng.random() < 0.9)}
 
 
 # ---- Gallina -------------------------------------------------------------------------
@@ -145,8 +334,109 @@ def _has_other(j):
     return False
 
 
+def cps(text):
+    """code points of a Python str as a Gallina list N (short strings)"""
+    return G.s(text)
+
+
+def ostr(x):
+    return "None" if x is None else f"(Some {cps(x)})"
+
+
+OTHER_NS = "\x00other"
+
+
+def coq_edn(j):
+    if j is None:
+        return "ENil"
+    if "other" in j:
+        return f"(ESym (Some {cps(OTHER_NS)}) {cps(j['other'])})"
+    if "b" in j:
+        return f"(EBool {G.b(j['b'])})"
+    if "i" in j:
+        return f"(EInt {G.z(j['i'])})"
+    if "f" in j:
+        return f"(EFloat {cps(j['f'])})"
+    if "s" in j:
+        return f"(EStr {cps(j['s'])})"
+    if "kw" in j:
+        return f"(EKw {ostr(j['kw'][0])} {cps(j['kw'][1])})"
+    if "sym" in j:
+        return f"(ESym {ostr(j['sym'][0])} {cps(j['sym'][1])})"
+    if "v" in j:
+        return "(EVec " + G.lst([coq_edn(e) for e in j["v"]], "edn") + ")"
+    if "l" in j:
+        return "(EList " + G.lst([coq_edn(e) for e in j["l"]], "edn") + ")"
+    if "set" in j:
+        return "(ESet " + G.lst([coq_edn(e) for e in j["set"]], "edn") + ")"
+    if "m" in j:
+        return "(EMap " + G.lst([f"({coq_edn(k)}, {coq_edn(v)})" for k, v in j["m"]], "(edn * edn)") + ")"
+    raise ValueError(j)
+
+
+def coq_jkey(k):
+    if "s" in k:
+        return f"(JKStr {cps(k['s'])})"
+    if "kw" in k:
+        return f"(JKKw {ostr(k['kw'][0])} {cps(k['kw'][1])})"
+    if "sym" in k:
+        return f"(JKSym {ostr(k['sym'][0])} {cps(k['sym'][1])})"
+    return f"(JKStr {cps(chr(0) + 'other')})"
+
+
+def coq_jval(j):
+    if j is None:
+        return "JNil"
+    if "other" in j:
+        return f"(JSym (Some {cps(OTHER_NS)}) {cps(j['other'])})"
+    if "b" in j:
+        return f"(JBool {G.b(j['b'])})"
+    if "i" in j:
+        return f"(JInt {G.z(j['i'])})"
+    if "f" in j:
+        return f"(JFloat {cps(j['f'])})"
+    if "s" in j:
+        return f"(JStr {cps(j['s'])})"
+    if "kw" in j:
+        return f"(JKw {ostr(j['kw'][0])} {cps(j['kw'][1])})"
+    if "sym" in j:
+        return f"(JSym {ostr(j['sym'][0])} {cps(j['sym'][1])})"
+    if "v" in j:
+        return "(JVec " + G.lst([coq_jval(e) for e in j["v"]], "jval") + ")"
+    if "l" in j:
+        return "(JList " + G.lst([coq_jval(e) for e in j["l"]], "jval") + ")"
+    if "set" in j:
+        return "(JSet " + G.lst([coq_jval(e) for e in j["set"]], "jval") + ")"
+    if "m" in j:
+        return "(JMap " + G.lst([f"({coq_jkey(k)}, {coq_jval(v)})" for k, v in j["m"]], "(jkey * jval)") + ")"
+    raise ValueError(j)
+
+
+def order_free(j):
+    if j is None:
+        return True
+    for tag in ("v", "l"):
+        if tag in j:
+            return all(order_free(e) for e in j[tag])
+    if "set" in j:
+        return len(j["set"]) <= 1 and all(order_free(e) for e in j["set"])
+    if "m" in j:
+        return len(j["m"]) <= 1 and all(order_free(k) and order_free(v) for k, v in j["m"])
+    return True
+
+
+_CUR = {}
+
+
 def coq_case(c):
     k = c["k"]
+    _CUR["case"] = c
+    if k == "edn":
+        return f"(CEdn {c['rd']}%N {coq_edn(c['v'])})"
+    if k == "ednt":
+        return f"(CEdnText {c['rd']}%N {cps(c['text'])})"
+    if k == "json":
+        return f"(CJson {coq_jval(c['v'])})"
     if k == "bstream":
         return "(CBStream " + G.lst([coq_bval(m) for m in c["msgs"]], "bval") + ")"
     if k == "braw":
@@ -172,7 +462,44 @@ def coq_out(o):
             "(" + G.lst([coq_bval(i) for i in its], "bval") + ", " + hx(rest) + ")" for its, rest in o["cuts"]) + "])"
     if "bytes" in o:
         return f"(OBytes {hx(o['bytes'])})"
+    if "back" in o or "rerr" in o:
+        c = _CUR.get("case") or {}
+        shown = o.get("text", "") if (c.get("k") == "edn" and order_free(c.get("v"))) else ""
+        if "back" in o:
+            return f"(OEdn {cps(shown)} {coq_edn(o['back'])})"
+        return f"(OEdnErr {cps(shown)} {int(o['rerr'])}%N)"
+    if "jback" in o:
+        return f"(OJson {coq_jval(o['jback'])})"
     return "(OErr 2%N)"
+
+
+def _walk(j):
+    if j is None:
+        return
+    yield j
+    for tag in ("v", "l", "set"):
+        if tag in j:
+            for e in j[tag]:
+                yield from _walk(e)
+    if "m" in j:
+        for k, v in j["m"]:
+            yield from _walk(k)
+            yield from _walk(v)
+
+
+def has_exp_float(j):
+    return any("f" in e and ("e" in e["f"] or "E" in e["f"]) for e in _walk(j))
+
+
+def has_dotted_kw(j):
+    return any("kw" in e and "." in e["kw"][1] for e in _walk(j))
+
+
+FINDINGS.update({
+    "F-19a": lambda c, o: c["k"] == "edn" and c["rd"] == 0 and has_exp_float(c["v"]),
+    "F-19b": lambda c, o: c["k"] == "edn" and c["rd"] == 0 and has_dotted_kw(c["v"]),
+    "F-19c": lambda c, o: c["k"] == "edn" and c["rd"] == 1 and has_exp_float(c["v"]),
+})
 
 
 def nontrivial(c, o):
@@ -180,6 +507,8 @@ def nontrivial(c, o):
         return True
     if c["k"] == "braw":
         return len(c["data"]) > 0
+    if c["k"] in ("edn", "json"):
+        return c["v"] is not None
     return True
 
 
